@@ -442,6 +442,12 @@ def o_text(case):
     script = b"".join(parts)
     net = NETS[case["net"]]
     text = net.script.disassemble(script)
+    # a compile that fails part-way (good tokens, then one that is not a token) happens in between: it must leave nothing behind
+    for junk in ("OP_DUP OP_HASH160 [0011] not-a-token", "OP_1 OP_2 op_add", "[00"):
+        try:
+            net.script.compile(junk)
+        except Exception:      # noqa - how bad text is refused is not under test here
+            pass
     try:
         back = net.script.compile(text)
     except (SyntaxError, ValueError, KeyError) as ex:
